@@ -207,6 +207,8 @@ class SWTForward(nn.Module):
         for j in range(self.J):
             # Do 1 level of the transform
             y = lowlevel.afb2d_atrous(ll, filts, self.mode, 2**j)
+            s = y.shape
+            y = y.reshape(s[0], -1, 4, s[-2], s[-1])
             coeffs.append(y)
             ll = y[:,:,0]
 
